@@ -33,6 +33,31 @@ DPE = 'xdoctest.exceptions.DoctestParseError'
 TOTAL_STR_METHODS = {'expandtabs', 'splitlines', 'join', 'strip', 'format', 'lstrip', 'rstrip', 'split', 'startswith', 'endswith', 'replace'}
 
 
+def _total_on_str_helper(ctx, h, depth=0):
+    """a small module-level helper of parser.py whose every call is a total string operation, len/min-with-default/map, a slice, or another such helper"""
+    if depth > 1 or h.module.name != 'xdoctest.parser' or h.cls is not None:
+        return False
+    for x in ast.walk(h.node):
+        if isinstance(x, (ast.Raise, ast.Assert, ast.Yield, ast.YieldFrom, ast.Await)):
+            return False
+        if isinstance(x, ast.Subscript) and not isinstance(x.slice, ast.Slice):
+            return False
+        if isinstance(x, ast.Call):
+            r = ctx.res.resolve_call(h, x)
+            if r[0] == 'builtin' and r[1] in ('len', 'list', 'map', 'isinstance'):
+                continue
+            if r[0] == 'builtin' and r[1] == 'min' and any(k.arg == 'default' for k in x.keywords):
+                continue
+            if isinstance(x.func, ast.Attribute) and x.func.attr in TOTAL_STR_METHODS and r[0] in ('method', 'ext'):
+                continue
+            if isinstance(x.func, ast.Attribute) and x.func.attr in ('findall', 'search', 'match') and isinstance(x.func.value, ast.Name) and x.func.value.id.isupper():
+                continue        # a compiled module-level pattern applied to text
+            if r[0] == 'repo' and len(r[1]) == 1 and (r[1][0].qualname == 'xdoctest.parser._min_indentation' or _total_on_str_helper(ctx, r[1][0], depth + 1)):
+                continue
+            return False
+    return True
+
+
 def _default_summaries(ctx):
     if not hasattr(ctx, '_default_summaries'):
         from ..policy import Summaries, DefaultPolicy
@@ -101,6 +126,8 @@ def r1_escape_parse(ctx):
                 kind = 'total str method'
             elif r[0] == 'repo' and r[1][0].qualname == 'xdoctest.parser._min_indentation':
                 kind = 'verified helper (min() guarded, see C13.R1)'
+            elif r[0] == 'repo' and len(r[1]) == 1 and _total_on_str_helper(ctx, r[1][0]):
+                kind = 'helper whose body only applies total string operations'
             elif isinstance(n.ast, ast.Raise) and any(x is c for x in ast.walk(n.ast)):
                 kind = 'operand of the guard raise'
             elif r[0] == 'repo' and len(r[1]) == 1 and not _default_summaries(ctx).escapes(r[1][0]):
